@@ -128,6 +128,28 @@ def directed(fam):
     return [dict(id=i, steps=s) for i, s in out]
 
 
+def run_shards(binary, inp, shards, timeout):
+    """Like vlib.run_driver_parallel, but a shard whose nodes did not come up (two processes were given the same 'free' port) is run again."""
+    from concurrent.futures import ThreadPoolExecutor
+    items = inp["scripts"]
+    shards = min(shards, max(1, len(items)))
+    parts = [items[i::shards] for i in range(shards)]
+    def one(part):
+        d = dict(inp, scripts=part)
+        for attempt in range(4):
+            try:
+                return vlib.run_driver(binary, d, timeout=timeout)
+            except Inconclusive as e:
+                msg = str(e)
+                if attempt < 3 and ("0 results written" in msg) and ("waiting for node to become available" in msg or "address already in use" in msg):
+                    time.sleep(2 + attempt)
+                    continue
+                raise
+    with ThreadPoolExecutor(max_workers=shards) as ex:
+        outs = list(ex.map(one, parts))
+    return [r for o in outs for r in o]
+
+
 def run(prop, tier, seed, replay=None):
     t0 = time.time()
     rep = Report(prop)
@@ -194,7 +216,7 @@ def run(prop, tier, seed, replay=None):
     if corrupt:
         inp["corrupt"] = corrupt
     td = time.time()
-    results = vlib.run_driver_parallel(binary, inp, shards=(5 if quick else 6), timeout=(300 if quick else 1200))
+    results = run_shards(binary, inp, shards=(5 if quick else 6), timeout=(300 if quick else 1200))
     t_driver = time.time() - td
     traces_by_fam = {fam: [r for r in results if by_id[r["id"]][0] == fam] for fam in FAMILIES}
     # the statement holds of the prescriptive design (exhaustive, small constants)
